@@ -67,7 +67,7 @@ extern Sink * g_sink;
 
 struct Counters
 {
-	uint64_t plans, ops, invocations, callbackCalls, enqueued, dispatched, predicateCalls, declined, slotRecycled, poolOps, dirtyConstructions, shapeCounts[S_COUNT], kindCounts[NKIND],
+	uint64_t plans, ops, invocations, callbackCalls, enqueued, enqueuedDuringProcessing, dispatched, predicateCalls, declined, slotRecycled, poolOps, dirtyConstructions, shapeCounts[S_COUNT], kindCounts[NKIND],
 		predCounts[NPRED], processIfForeignUntouched, faultRuns, faultsInjected, faultsByKind[F_KINDS], opsFailedByFault;
 	uint64_t perVariant[V_COUNT];
 };
@@ -173,6 +173,8 @@ struct Interp : Sink
 	int slotObj[MAXSLOT], slotKey[MAXSLOT], slotProto[MAXSLOT];
 	bool slotUsed[MAXSLOT], slotUnusable[MAXSLOT];
 	std::vector<Call> trace;
+	int cbFollow[MAXSLOT];
+	int inProc;              // object whose processing call is in progress, or -1
 	std::vector<long> predAsked;
 	int predMask;
 	int nextEvId;
@@ -181,8 +183,9 @@ struct Interp : Sink
 	std::vector<long> passedPerOp;
 	int nKeys;
 
-	explicit Interp(const Plan & p) : plan(p), predMask(0), nextEvId(1), logHash(kHashInit), aux(p.schedSeed() ^ 0x2468ace)
+	explicit Interp(const Plan & p) : plan(p), inProc(-1), predMask(0), nextEvId(1), logHash(kHashInit), aux(p.schedSeed() ^ 0x2468ace)
 	{
+		for(int i = 0; i < MAXSLOT; ++i) cbFollow[i] = 0;
 		for(int i = 0; i < MAXSLOT; ++i) { slotObj[i] = -1; slotKey[i] = 0; slotProto[i] = 0; slotUsed[i] = false; slotUnusable[i] = false; handles[i] = Handle(); }
 		for(int i = 0; i < MAXOBJ; ++i) weakPending[i] = false;
 		nKeys = B::hasKeys ? NKEY : 1;
@@ -199,6 +202,18 @@ struct Interp : Sink
 		Call c; c.cb = cb; c.proto = proto; c.a = a; c.b = b;
 		trace.push_back(c);
 		log((uint64_t)cb * 2654435761u + (uint64_t)proto * 97 + (uint64_t)a * 7 + (uint64_t)b);
+		// a listener that posts a follow-up event while a processing call runs: the event waits for a later call,
+		// behind everything the running call leaves in the queue
+		if(inProc >= 0 && cb >= 0 && cb < MAXSLOT && cbFollow[cb] > 0 && slotObj[cb] == inProc) {
+			const int shape = (cbFollow[cb] - 1) % S_COUNT;
+			cbFollow[cb] = 0;
+			const int id = nextEvId++;
+			const int o = inProc, k = slotKey[cb];
+			withShape(shape, id, Enqueuer(real(o), k));
+			MEv e; e.id = id; e.key = k; e.shape = shape; e.proto = kShapeProto[shape];
+			pending[o].push_back(e);
+			++counters.enqueued; ++counters.enqueuedDuringProcessing;
+		}
 	}
 	bool predicate(int predKind, int proto, long a) override
 	{
@@ -342,7 +357,8 @@ struct Interp : Sink
 			if(!aliveObj(o)) return;
 			const int cb = op.a;
 			if(cb < 0 || cb >= MAXSLOT - 2 || slotUsed[cb]) return;
-			const int kind = ((op.c % NKIND) + NKIND) % NKIND;
+			const int kind = (((op.c & 15) % NKIND) + NKIND) % NKIND;
+			const int follow = (op.c >> 4) & 15;   // 0: none, else 1 + shape of an event this callback enqueues when first invoked from a processing call
 			const int proto = kKindProto[kind];
 			int before = op.b;
 			if(before < 0 || before >= MAXSLOT) before = MAXSLOT - 1;
@@ -368,6 +384,7 @@ struct Interp : Sink
 			default: h = addKind<K8>(o, k, how, cb, handles[before]); break;
 			}
 			slotUsed[cb] = true; slotObj[cb] = o; slotKey[cb] = k; slotProto[cb] = proto; handles[cb] = h;
+			cbFollow[cb] = B::hasQueue ? follow : 0;
 			std::vector<int> & l = lists[o][k][proto];
 			if(how == 1) l.insert(l.begin(), cb);
 			else if(how == 2 && beforePresent) l.insert(std::find(l.begin(), l.end(), before), cb);
@@ -435,8 +452,10 @@ struct Interp : Sink
 			std::vector<Call> want;
 			for(size_t i = 0; i < batch.size(); ++i) expectDispatch(want, o, batch[i].key, batch[i].shape, batch[i].id);
 			bool got = false;
+			inProc = o;
 			try { FaultArm arm; got = op.k == O_PROCESS ? QOps<B>::process(real(o)) : QOps<B>::processOne(real(o)); }
-			catch(...) { compareTrace(want, true, "processing aborted by an exception"); throw; }
+			catch(...) { inProc = -1; compareTrace(want, true, "processing aborted by an exception"); throw; }
+			inProc = -1;
 			counters.dispatched += batch.size();
 			if(!compareTrace(want, false, op.k == O_PROCESS ? "process" : "processOne")) return;
 			if(got != !batch.empty()) viol.raise("process-result", std::string("process/processOne returned ") + (got ? "true" : "false") + " with " + std::to_string(batch.size()) + " event(s) taken");
@@ -469,6 +488,7 @@ struct Interp : Sink
 				}
 			}
 			bool got = false;
+			inProc = o;
 			try {
 				FaultArm arm;
 				switch(pk) {
@@ -483,13 +503,17 @@ struct Interp : Sink
 			}
 			catch(...) {
 				// exactly the events the call had taken out are gone
+				inProc = -1;
 				throw;
 			}
+			inProc = -1;
 			if(pproto >= 0) {
 				if(predAsked != wantAsked) { viol.raise("processIf-examined-wrong-events", "processIf with a predicate of prototype " + std::to_string(pproto) + " asked about " + std::to_string(predAsked.size()) + " event(s) but exactly the "
 					+ std::to_string(wantAsked.size()) + " queued event(s) of that prototype must be examined; batch: " + renderBatch(batch)); return; }
 				if(!compareTrace(want, false, "processIf")) return;
 				if(got != any) { viol.raise("process-result", std::string("processIf returned ") + (got ? "true" : "false") + " but it " + (any ? "dispatched" : "dispatched nothing")); return; }
+				// what the predicate left goes back ahead of what was enqueued while the call ran
+				kept.insert(kept.end(), pending[o].begin(), pending[o].end());
 				pending[o] = kept;
 			}
 			else {
@@ -498,7 +522,13 @@ struct Interp : Sink
 				// compare, per prototype, the callbacks invoked by processIf + drain with the model's expectation.
 				std::vector<Call> first = trace;
 				trace.clear();
-				{ FaultArm arm; QOps<B>::process(real(o)); }
+				{
+					// drain: the batch's left-overs plus whatever listeners enqueued meanwhile (checked as ordinary events)
+					std::vector<MEv> newer; newer.swap(pending[o]);
+					FaultArm arm;
+					QOps<B>::process(real(o));
+					for(size_t i = 0; i < newer.size(); ++i) batch.push_back(newer[i]);
+				}
 				first.insert(first.end(), trace.begin(), trace.end());
 				for(int p = 0; p < NPROTO && !viol.set; ++p) {
 					std::vector<Call> wantP, gotP;
@@ -802,7 +832,8 @@ void generate(uint64_t seed, Plan & plan)
 		if(!known.empty()) slot = known[rng.below((uint32_t)known.size())];
 		if(r < 26 && nextCb < MAXSLOT - 4) {
 			const uint32_t q = rng.below(100);
-			const int kind = (int)rng.below(NKIND);
+			int kind = (int)rng.below(NKIND);
+			if(queue && rng.chance(1, 3)) { const int follow = 1 + (int)rng.below(S_COUNT); kind += 16 * follow; }
 			ops.push_back(Op(q < 50 ? O_APPEND : q < 72 ? O_PREPEND : O_INSERT, nextCb, slot, kind, d));
 			known.push_back(nextCb);
 			++nextCb;
@@ -867,7 +898,7 @@ std::string describe(const Plan & plan)
 	if(!plan.tasks.empty()) for(size_t i = 0; i < plan.tasks[0].size(); ++i) {
 		const Op & op = plan.tasks[0][i];
 		o << " " << (op.k >= 1 && op.k < sh::O_KINDS ? names[op.k] : "?");
-		if(op.k <= sh::O_INSERT) { o << "(cb" << op.a << ",kind" << op.c; if(op.k == sh::O_INSERT) o << ",before h" << op.b; o << ")"; }
+		if(op.k <= sh::O_INSERT) { o << "(cb" << op.a << ",kind" << (op.c & 15); if(op.c >> 4) o << ",posts" << shapes[((op.c >> 4) - 1) % 8]; if(op.k == sh::O_INSERT) o << ",before h" << op.b; o << ")"; }
 		else if(op.k == sh::O_REMOVE) o << "(h" << op.b << ")";
 		else if(op.k == sh::O_INVOKE || op.k == sh::O_ENQ) o << shapes[((op.c % 8) + 8) % 8];
 		else if(op.k == sh::O_PROCESS_IF) o << "(pred" << op.c << ",mask" << op.a << ")";
@@ -883,7 +914,7 @@ void statsJson(std::string & out)
 {
 	const sh::Counters & c = sh::counters;
 	std::ostringstream o;
-	o << ",\"probes\":{\"ops\":" << c.ops << ",\"invocations\":" << c.invocations << ",\"callback_calls\":" << c.callbackCalls << ",\"events_enqueued\":" << c.enqueued << ",\"events_dispatched\":" << c.dispatched
+	o << ",\"probes\":{\"ops\":" << c.ops << ",\"invocations\":" << c.invocations << ",\"callback_calls\":" << c.callbackCalls << ",\"events_enqueued\":" << c.enqueued << ",\"events_enqueued_by_listeners_during_processing\":" << c.enqueuedDuringProcessing << ",\"events_dispatched\":" << c.dispatched
 	  << ",\"predicate_calls\":" << c.predicateCalls << ",\"events_declined\":" << c.declined << ",\"processIf_foreign_events_left_untouched\":" << c.processIfForeignUntouched
 	  << ",\"copy_move_swap_destroy_ops\":" << c.poolOps << ",\"constructions_in_dirty_storage\":" << c.dirtyConstructions << ",\"shape_counts\":[";
 	for(int i = 0; i < sh::S_COUNT; ++i) o << (i ? "," : "") << c.shapeCounts[i];
